@@ -1189,3 +1189,35 @@ func (s *Sim) resolveEV(a *Action, bs *BState) (string, string) {
 	}
 	return b64url([]byte(fmt.Sprintf("%016d", s.R.Int63()))), "garbage"
 }
+
+// SetTwoFA gives ledger account idx a second factor directly in storage (with three known
+// recovery codes hashed at cost 4) or removes it.
+func (s *Sim) SetTwoFA(idx int, totp, sms bool) {
+	a := s.Accts[idx]
+	u := s.W.Store.Peek(a.PID)
+	u.TOTPSecretKey, u.SMSPhone, u.RecoveryCodes = "", "", ""
+	a.Recov = nil
+	if totp {
+		u.TOTPSecretKey = newTOTPSecret(s.R)
+	}
+	if sms {
+		u.SMSPhone = a.Phone
+	}
+	if totp || sms {
+		var hashed []string
+		for j := 0; j < 3; j++ {
+			c := fmt.Sprintf("rk%d%dx-%05d", idx, j, s.R.Intn(100000))
+			a.Recov = append(a.Recov, &Secret{Val: c})
+			hashed = append(hashed, Hash4(c))
+		}
+		u.RecoveryCodes = strings.Join(hashed, ",")
+	}
+	s.W.Store.Put(u)
+}
+
+// SetConfirmed sets the stored confirmation flag of ledger account idx.
+func (s *Sim) SetConfirmed(idx int, v bool) {
+	u := s.W.Store.Peek(s.Accts[idx].PID)
+	u.Confirmed = v
+	s.W.Store.Put(u)
+}
